@@ -299,6 +299,9 @@ def s_boundary_opts(draw, mode, lat):
     o = {}
     if draw(st.booleans()):
         o["canonize"] = draw(st.booleans())
+    if mode == "projector" and draw(st.integers(0, 2)) == 0:
+        # the arbitrary-geometry projector compressor also takes 'bp' and, for genuinely layered networks, 'layered'
+        o["canonize"] = "layered" if lat.get("layers", 1) == 2 and draw(st.booleans()) else "bp"
     if mode == "full-bond":
         # equalize_norms (also implied by strip_exponent) is refused by this mode: keep ~1/10 of the accepted rejection
         k = draw(st.integers(0, 19))
@@ -1636,8 +1639,10 @@ def run_compressed(case):
     if o.get("compress_mode") == "local-fit":
         cutoff = 0.0  # this mode ignores a cutoff (and warns)
     kw = dict(output_inds=out) if out else {}
-    res = tn.contract_compressed(optimize, max_bond=chi, cutoff=cutoff, callback_pre_compress=log.pre,
-                                 callback_post_compress=log.post, inplace=case["inplace"], **kw, **o)
+    # (local-fit solves ALS normal equations: LinAlgError on a rank deficient local environment is an accepted rejection)
+    with rejecting(*((np.linalg.LinAlgError,) if o.get("compress_mode") == "local-fit" else ()), tag="als-singular:"):
+        res = tn.contract_compressed(optimize, max_bond=chi, cutoff=cutoff, callback_pre_compress=log.pre,
+                                     callback_post_compress=log.post, inplace=case["inplace"], **kw, **o)
     info = dict(entry="contract_compressed", mode=o.get("compress_mode", "auto"), gauges=bool(case["gauges"]),
                 late=o.get("compress_late"), eq=bool(o.get("equalize_norms")) if o.get("equalize_norms", "auto") != "auto" else bool(o.get("strip_exponent")))
     if log.violation is not None:
@@ -1772,11 +1777,8 @@ def s_ag(draw, tier):
     if draw(st.booleans()):
         o["canonize"] = draw(st.booleans())
     if method == "projector" and draw(st.integers(0, 3)) == 0:
-        o["canonize"] = draw(st.sampled_from(["layered", "bp"]))
-        if o["canonize"] == "layered":
-            # documented for genuinely layered networks: every site has both layers, edges stay inside a layer
-            g["two"] = [True] * g["n"]
-            g["ends"] = [[e[0], e[0]] for e in g["ends"]]
+        # ('layered' needs every layer to be a full copy of the geometry: exercised on bra/ket lattices in b2d.projector)
+        o["canonize"] = "bp"
     if method == "projector" and draw(st.integers(0, 4)) == 0:
         o["lazy"] = True
     if draw(st.integers(0, 2)) == 0:
